@@ -392,6 +392,30 @@ def _is_empty_test(e):
     return False
 
 
+def _filtered_by_adapter(F, fn, n, anc):
+    """`for cell in NonEmptyCells(&mut reader) { .. cells.push(cell) }`: the loop iterates a type of this crate whose own
+    `Iterator::next` has the unguarded arm that discards `Cell { val: DataRef::Empty, .. }` in front of the arm that
+    yields a cell"""
+    from .kit import for_loops
+    for it, pat, lbody, outer in for_loops(fn.body):
+        if not any(x is n for x in walk(lbody)):
+            continue
+        ty = ((peel(it) or {}).get("ty") or "") if isinstance(it, dict) else ""
+        base = ty.replace("&mut ", "").replace("&", "").split("<", 1)[0]
+        if not base or base.startswith(("core::", "alloc::", "std::")):
+            continue
+        for g in list(F.fns) + list(getattr(F, "helper_fns", [])):
+            if not g.name.endswith("::next") or not (g.impl_trait or "").endswith("Iterator") or (g.impl_self or "").split("<", 1)[0] != base:
+                continue
+            for m in walk_k(g.body, "Match"):
+                arms = m.get("arms", [])
+                for i, a in enumerate(arms):
+                    if _is_empty_filter_arm(a) and a.get("guard") is None and any(
+                            any(r.get("k") == "Ret" for r in walk(b["body"])) or (pat_variant(b["pat"]) or "").endswith("Ok") for b in arms[i + 1:]):
+                        return True
+    return False
+
+
 def _empty_guarded(n, anc):
     """is node n only reached when the current cell is not Empty, by an explicit boolean test?"""
     from .kit import reach_conds
@@ -445,7 +469,9 @@ def r_tight(ctx, rep):
                             arm_i = j
                     break
             key = "%s|R-TIGHT|push#%d|empty-filter" % (fn.name, n_push)
-            if _empty_guarded(n, anc):
+            if _filtered_by_adapter(F, fn, n, anc):
+                rep.holds("R-TIGHT", key, loc(n), "cells.push takes its cells from a private iterator adapter whose `next` discards DataRef::Empty cells")
+            elif _empty_guarded(n, anc):
                 rep.holds("R-TIGHT", key, loc(n), "cells.push is reached only when the cell is not DataRef::Empty (explicit test)")
             elif m is not None and arm_i is not None and any(_is_empty_filter_arm(a) and a.get("guard") is None for a in m["arms"][:arm_i]):
                 rep.holds("R-TIGHT", key, loc(n), "cells.push is reached only after the arm that discards DataRef::Empty cells")
@@ -662,6 +688,12 @@ def _cloned_fields(fn):
                 out.add(r["name"])
             elif r.get("k") == "Path" and "local" in r.get("res", {}):
                 out.add("local:" + r["res"]["local"])
+                # `let sheet = &self.sheet_entry(name)?.0; .. sheet.clone()`: the local is a view of that field
+                from .kit import let_init
+                li = let_init(fn.body, r)
+                v = peel(li["init"]) if li is not None else None
+                if isinstance(v, dict) and v.get("k") == "Field":
+                    out.add(v["name"])
     # tuple-pattern destructuring `(range, _formula)`: position 0
     for p in walk_k(fn.body, "Tuple"):
         names = [x.get("name") for x in p["pats"]]
